@@ -59,6 +59,9 @@ Qed.
 Lemma str_between_prefix : forall s s', sfx s' s -> is_prefix (str_between s s') s = true.
 Proof. intros s s' [p Hp]. subst. rewrite str_between_app. apply is_prefix_app. Qed.
 
+Lemma rd_wf : forall s, wf s -> rd s = Ok (hd 0 s).
+Proof. intros [|c s] W; [exfalso; apply wf_not_nil; auto|reflexivity]. Qed.
+
 Lemma wf_nonnil : forall s, wf s -> s <> [].
 Proof. intros s W ->. apply wf_not_nil; auto. Qed.
 
@@ -152,7 +155,7 @@ Proof.
     + apply Z.eqb_eq in E. subst b.
       assert (W0 : wf s0) by (apply (wf_tail_of_nonzero a); auto).
       destruct (IH s0 H2 W0) as (r & Er & Pr). exists r. split; auto.
-    + exists false. split; auto. discriminate.
+    + exists false. split; auto; discriminate.
 Qed.
 
 Lemma find_end_ok : forall m s, Forall (fun c => c <> 0) m -> wf s ->
@@ -407,7 +410,7 @@ Lemma countSkippedLines_nobs : forall txt cur, nobs txt -> countSkippedLines txt
 Proof.
   intros txt cur N. unfold countSkippedLines.
   assert (inb 92 txt = false).
-  { unfold inb. induction N; simpl; auto. rewrite IHN.
+  { unfold inb. induction N; cbn [existsb]; auto. rewrite IHN.
     destruct (92 =? x) eqn:E; auto. apply Z.eqb_eq in E. congruence. }
   rewrite H. reflexivity.
 Qed.
@@ -415,18 +418,16 @@ Qed.
 Theorem getToken_progress : forall s, wf s -> hd 0 s <> 0 -> okt (getToken fx ops s) s.
 Proof.
   intros s W H. unfold getToken.
-  destruct s as [|c0 s0] eqn:Es; [exfalso; apply wf_not_nil; auto|]. cbn [rd bind]. simpl in H.
-  apply Z.eqb_neq in H. rewrite H. apply Z.eqb_neq in H. rewrite <- Es in *. clear Es.
+  rewrite (rd_wf s W). cbn [bind]. apply Z.eqb_neq in H. rewrite H. apply Z.eqb_neq in H.
   destruct (skipWhitespace_ok s W) as (sw & Ew & Ww & Sw). rewrite Ew. cbn [bind].
-  destruct sw as [|cw sw'] eqn:Esw; [exfalso; apply wf_not_nil; auto|]. cbn [rd bind].
-  destruct (cw =? 0) eqn:Ecw.
+  rewrite (rd_wf sw Ww). cbn [bind].
+  destruct (hd 0 sw =? 0) eqn:Ecw.
   { (* only whitespace was left: the closing newline token *)
-    apply Z.eqb_eq in Ecw. subst cw. exists (Some TNewline), (0 :: sw'). repeat split; auto.
+    apply Z.eqb_eq in Ecw. exists (Some TNewline), sw. repeat split; auto.
     destruct Sw as [p Hp]. destruct p as [|x p].
-    - simpl in Hp. subst s. simpl in H. contradiction.
-    - subst s. simpl. rewrite app_length. simpl. lia. }
-  apply Z.eqb_neq in Ecw. rewrite <- Esw in *.
-  assert (Hsw : hd 0 sw <> 0) by (subst sw; auto). clear Esw.
+    - simpl in Hp. subst s. contradiction.
+    - subst s. simpl. rewrite app_length. lia. }
+  apply Z.eqb_neq in Ecw. assert (Hsw : hd 0 sw <> 0) by auto.
   unfold peek.
   destruct (shallowPeek_ok sw Ww) as (k & s1 & E1 & W1 & S1 & F1). rewrite E1. cbn [bind].
   assert (SS : sfx s1 s) by (eapply sfx_trans; eauto).
@@ -472,7 +473,7 @@ Proof.
     - repeat match type of E1 with
              | (if ?b then _ else _) = _ => destruct b
              end; inversion E1; subst; simpl; auto. }
-  destruct k; simpl in F1.
+  destruct k; simpl in F1; cbn [bind].
   - (* KNone *) apply UNK; auto.
   - (* KIdent *)
     destruct (peekForIdentifier_ok s1 W1 F1) as (k2 & E2 & K2). rewrite E2. cbn [bind].
@@ -497,11 +498,10 @@ Proof.
     + apply FIN. apply getOperatorToken_ok; auto. rewrite EO. discriminate.
     + apply UNK; auto.
   - (* KNewline *)
-    destruct (wf_hd_tl s1 W1 H1) as (Wt & Lt & St). exists (Some TNewline), (tl s1). repeat split; auto.
-    + eapply sfx_trans; eauto.
-    + lia.
-  - (* KString *) destruct F1 as [-> F1]. apply FIN. apply getStringToken_ok; auto. intro X; contradiction.
-  - (* KChar *) destruct F1 as [-> F1]. apply FIN. apply getCharToken_ok; auto. intro X; contradiction.
+    destruct (wf_hd_tl s1 W1 H1) as (Wt & Lt & St). exists (Some TNewline), (tl s1).
+    repeat split; auto; try (eapply sfx_trans; eauto); try lia.
+  - (* KString *) destruct F1 as [-> F1]. apply FIN. apply getStringToken_ok; auto; intro X; contradiction.
+  - (* KChar *) destruct F1 as [-> F1]. apply FIN. apply getCharToken_ok; auto; intro X; contradiction.
 Qed.
 
 Theorem tokenizeLoop_ok : forall fuel s acc, wf s -> (length s <= fuel)%nat ->
